@@ -720,7 +720,7 @@ static int iv_nvar (int id)
 	case IV_SELECTORS: return 12;
 	case IV_PARAMS: return 13;
 	case IV_BASIS: return 14 + 9;
-	case IV_FILES: return 4;
+	case IV_FILES: return 6;
 	}
 	return 0;
 }
@@ -930,6 +930,14 @@ static int do_invalid (HState * S, int id, int v, int *skip, int *lookup, char *
 		case 0: snprintf (what, wl, "mpq_QSread_and_load_basis(p,\"/nonexistent/x.bas\")"); rv = mpq_QSread_and_load_basis (p, "/nonexistent/x.bas"); break;
 		case 1: { snprintf (what, wl, "mpq_QSread_basis(p,\"/nonexistent/x.bas\")"); QSbasis *B = mpq_QSread_basis (p, "/nonexistent/x.bas"); rv = B ? 0 : 1; if (B) mpq_QSfree_basis (B); break; }
 		case 2: { snprintf (what, wl, "mpq_QSread_prob(\"/nonexistent/x.lp\",\"LP\")"); mpq_QSprob q = mpq_QSread_prob ("/nonexistent/x.lp", "LP"); rv = q ? 0 : 1; if (q) mpq_QSfree_prob (q); break; }
+		case 4: snprintf (what, wl, "mpq_QSget_infeas_array(p,NULL)"); rv = mpq_QSget_infeas_array (p, NULL); break;
+		case 5: {
+			/* a range for a row that is not ranged */
+			int r = -1; for (int i = 0; i < m; i++) if (S->M->sense[i] != 'R') { r = i; break; }
+			if (r < 0) { *skip = 1; break; }
+			mpq_set_ui (a, 3, 1);
+			snprintf (what, wl, "mpq_QSchange_range(p,%d,3) on a row of sense %c", r, S->M->sense[r]); rv = mpq_QSchange_range (p, r, a); break;
+		}
 		default: snprintf (what, wl, "mpq_QSwrite_prob(p,\"/nonexistent/dir/x.lp\",\"LP\")"); rv = mpq_QSwrite_prob (p, "/nonexistent/dir/x.lp", "LP"); break;
 		}
 		break;
